@@ -100,14 +100,21 @@ def r2_mapping_choices_total(ctx: Ctx) -> None:
         ctx.check(table.get(name) in keys, f"BUS_MAPPING[{table.get(name)}]", "the selected RomType has a bus (Resolver.get_bus subscripts BUS_MAPPING)")
     st = [n for n in walk_no_nested(sm.node) if isinstance(n, ast.Assign) and unparse(n.targets[0]) == "self.resolver.rom_type"]
     local_tables = {unparse(n.targets[0]) for n in walk_no_nested(sm.node) if isinstance(n, ast.Assign) and n.value is d[0]}
-    okv = len(st) == 1 and isinstance(st[0].value, ast.Subscript) and unparse(st[0].value.slice) == sm.params()[1] and \
-        (st[0].value.value is d[0] or unparse(st[0].value.value) in local_tables or unparse(st[0].value.value) == tname)
+    from ..match import inline as _inl, last_assignments as _la
+
+    stv = st[0].value if len(st) == 1 else None
+    for _ in range(3):
+        stv = _inl(stv, {k: x for k, x in _la(sm.node).items() if k not in local_tables}) if stv is not None else None
+    okv = stv is not None and isinstance(stv, ast.Subscript) and unparse(stv.slice) == sm.params()[1] and \
+        (stv.value is d[0] or unparse(stv.value) in local_tables or unparse(stv.value) == tname or unparse(stv.value) == unparse(d[0]))
     ctx.check(okv, "set_mapping:assigns-rom-type", "plain subscript of the name table by the option value (an unknown name raises)")
     cli = ctx.repo.func(CLI, "cli_main")
     m = _dests(cli.node)["mapping"]
     ctx.check(const_str(kwarg(m, "default")) in table, "cli_main:-m default", "the default mapping name is a known one")
     gb = ctx.repo.func("a816.symbols", "Resolver.get_bus")
-    ctx.check(any(unparse(n) == "BUS_MAPPING[self.rom_type]" for n in ast.walk(gb.node)), "Resolver.get_bus:by-rom-type", "built-in bus chosen by rom_type")
+    from ..match import canonical_subscripts
+
+    ctx.check("BUS_MAPPING[self.rom_type]" in canonical_subscripts(gb.node), "Resolver.get_bus:by-rom-type", "built-in bus chosen by rom_type")
 
 
 def r3_defines_are_integers(ctx: Ctx) -> None:
